@@ -1183,6 +1183,29 @@ static void chacha_run(int batch)
 /* ================================================================== */
 /* driver                                                              */
 /* ================================================================== */
+
+/* ---- huge single updates: 2^29 + 200 octets in ONE Update call (2^32 bits and more: length counters kept in 32-bit pieces overflow here), compared with the same
+ *      message fed in 1 MiB pieces and with the reference.  One batch per plain digest function. ---- */
+static int huge_nbatches(void) { int n = 0; for (int i = 0; i < NSF; i++) if (SF[i].kind == K_DIGEST) n++; return n; }
+static void huge_run(int batch)
+{
+    const sf_t *f = NULL; int n = 0; for (int i = 0; i < NSF; i++) if (SF[i].kind == K_DIGEST && n++ == batch) f = &SF[i];
+    if (!f) return;
+    size_t len = ((size_t) 1 << 29) + 200; unsigned char *m = malloc(len); if (!m) { vf_incon("cannot allocate %zu bytes for the huge-update case", len); return; }
+    for (size_t i = 0; i < len; i += 8) { uint64_t v = (uint64_t) i * 0x9e3779b97f4a7c15ULL + batch; memcpy(m + i, &v, len - i >= 8 ? 8 : len - i); }
+    unsigned char one[64], pieces[64], ref[64]; void *c = malloc(f->ctxsz);
+    if (sf_init(f, c, NULL, 0) < 0) { V(f->name, "init-failed", "Init failed"); goto out; }
+    sf_upd(f, c, m, (uint32_t) len); sf_fin(f, c, one);
+    if (sf_init(f, c, NULL, 0) < 0) { V(f->name, "init-failed", "Init failed"); goto out; }
+    for (size_t o = 0; o < len; o += 1 << 20) sf_upd(f, c, m + o, (uint32_t) (len - o < (1 << 20) ? len - o : (1 << 20)));
+    sf_fin(f, c, pieces);
+    sf_ref(f, NULL, 0, m, len, ref);
+    g_item++; vf_stat("cases", 1); vf_stat("huge_single_updates", 1); vf_distinct("huge|%s", f->name);
+    if (memcmp(one, ref, f->out)) V(f->name, "wrong-digest-huge-single-update", "digest of %zu octets given in one Update call differs from the standard's (same message in 1 MiB pieces: %s)", len, memcmp(pieces, ref, f->out) ? "also wrong" : "correct");
+    else if (memcmp(pieces, ref, f->out)) V(f->name, "wrong-digest-huge-message", "digest of %zu octets fed in 1 MiB pieces differs from the standard's", len);
+out:
+    free(c); free(m);
+}
 typedef struct { const char *name; int (*nb)(void); void (*run)(int); } group_t;
 static const group_t GROUPS[] = {
     { "stream", stream_nbatches, stream_run },
@@ -1192,6 +1215,7 @@ static const group_t GROUPS[] = {
     { "cbc",    cbc_nbatches,    cbc_run },
     { "gcm",    gcm_nbatches,    gcm_run },
     { "chacha", chacha_nbatches, chacha_run },
+    { "huge",   huge_nbatches,   huge_run },
 };
 #define NGROUPS ((int) (sizeof GROUPS / sizeof GROUPS[0]))
 typedef struct { const group_t *g; int batch; } job_t;
